@@ -24,7 +24,10 @@ def ev(e, env):
             return Fraction(env[nm])
         raise NotConst(nm)
     if k == "Cast":
-        return ev(e["e"], env)
+        v = ev(e["e"], env)
+        if v is not None and e.get("ty") in ("u8", "u16", "u32", "u64", "u128", "usize", "i8", "i16", "i32", "i64", "i128", "isize") and v.denominator != 1:
+            return Fraction(int(v))                    # float -> integer cast truncates
+        return v
     if k == "Unary" and e["op"] == "-":
         return -ev(e["e"], env)
     if k == "Binary" and e["op"] in ("+", "-", "*", "/"):
@@ -37,6 +40,9 @@ def ev(e, env):
             return a * b
         if b == 0:
             return None
+        if e.get("ty") in ("u8", "u16", "u32", "u64", "u128", "usize", "i8", "i16", "i32", "i64", "i128", "isize"):
+            q = abs(a) // abs(b)                      # integer division truncates toward zero
+            return Fraction(q if (a >= 0) == (b >= 0) else -q)
         return a / b
     if k == "Block" and not e["stmts"] and "expr" in e:
         return ev(e["expr"], env)
